@@ -120,11 +120,11 @@ def devnull_fd():
     return _devnull
 
 
-def new_reader():
-    """A real PeerConnection whose reader runs synchronously on demand."""
+def new_reader(sender: bool = False):
+    """A real PeerConnection (accepted, or dialled when `sender`) whose reader runs synchronously on demand."""
     install_inert_threads()
     from diameter.node import peer as peer_mod
-    conn = peer_mod.PeerConnection("127.0.0.1", 3868, peer_mod.PEER_RECV, devnull_fd())
+    conn = peer_mod.PeerConnection("127.0.0.1", 3868, peer_mod.PEER_SEND if sender else peer_mod.PEER_RECV, devnull_fd())
     conn.state = peer_mod.PEER_READY
     conn.ident = "00" * 6
     delivered = []
@@ -168,9 +168,9 @@ def feed_real(conn, chunk: bytes, budget: int = 40000, alarm_s: float = 2.0):
         signal.signal(signal.SIGALRM, old)
 
 
-def frame_real(chunks: list[bytes], alarm_s: float = 2.0) -> str:
+def frame_real(chunks: list[bytes], alarm_s: float = 2.0, sender: bool = False) -> str:
     from diameter.node import peer as peer_mod
-    conn, delivered = new_reader()
+    conn, delivered = new_reader(sender)
     spin = False
     died = ""
     for c in chunks:
@@ -188,5 +188,5 @@ def frame_real(chunks: list[bytes], alarm_s: float = 2.0) -> str:
     closed = 1 if conn.state == peer_mod.PEER_CLOSED else 0
     if spin and alarm_s < 10:
         # a reader that did not return within the alarm is tried again from scratch with a five times longer one
-        return frame_real(chunks, alarm_s=10.0)
+        return frame_real(chunks, alarm_s=10.0, sender=sender)
     return f"D[{dl}] closed={closed} spin={1 if spin else 0} resid={len(conn._read_buffer)}" + (f" died={died}" if died else "")
